@@ -25,6 +25,10 @@ pub struct Scn {
     pub terms: HashMap<Vec<u8>, String>,
     pub peers: Vec<String>,
     pub events: bool,
+    pub defs: bool,
+    pub auth_ids: HashMap<(String, String), Uid>,
+    pub user_key: HashMap<String, Vec<u8>>,
+    pub defs_cache: Option<Value>,
 }
 
 impl World {
@@ -155,7 +159,7 @@ fn hash_term(scn: &mut Scn, h: &Option<Vec<u8>>) -> Value {
 /// projection of one peer's storage onto the specification's variables, restricted to the scenario
 pub async fn project(world: &World, scn: &mut Scn, pname: &str) -> Value {
     let peer = &world.peers[pname];
-    let st = read_store(peer, world.app_shorts()).await;
+    let st = read_store(peer, world.app_shorts(), scn.names.rooms.values().cloned().collect(), scn.names.rows.values().cloned().collect()).await;
     learn_contents(scn, &st);
     let room_set: HashSet<Uid> = scn.names.rooms.values().cloned().collect();
     let observed: Vec<Vec<u8>> = st.logs.iter().filter(|l| room_set.contains(&l.room)).flat_map(|l| [l.dh.clone(), l.hh.clone()]).flatten().collect();
@@ -231,6 +235,65 @@ fn first_string(json: &Option<String>) -> String {
     "".to_string()
 }
 
+/// the room definitions a peer stores, as abstract admin / group / user / right entries
+pub async fn project_defs(world: &World, scn: &Scn, pname: &str) -> Value {
+    let peer = &world.peers[pname];
+    // one query per room of the scenario (a query over every room of a long-lived instance is slow)
+    let mut found: Vec<Value> = Vec::new();
+    for (_, rid) in scn.names.rooms.iter() {
+        let q = "query { sys.Room(id=$rid) { id mdate admin { verif_key enabled mdate } authorisations(nullable(rights, users, user_admin)) { id name mdate rights { entity mutate_self mutate_all mdate } users { verif_key enabled mdate } user_admin { verif_key enabled mdate } } } }";
+        match peer.db.query(q, params(&[("rid", uid_encode(rid))])).await {
+            Ok(r) => {
+                if let Ok(v) = serde_json::from_str::<Value>(&r) {
+                    if let Some(a) = v["sys.Room"].as_array() {
+                        found.extend(a.iter().cloned());
+                    }
+                }
+            }
+            Err(e) => return json!({"ERR": e.to_string()}),
+        }
+    }
+    let v = json!({"sys.Room": found});
+    let mut out = Map::new();
+    let users = |a: &Value| -> Vec<Value> {
+        let mut r = Vec::new();
+        if let Some(arr) = a.as_array() {
+            for u in arr {
+                let k = vh::security::base64_decode(u["verif_key"].as_str().unwrap_or("").as_bytes()).unwrap_or_default();
+                r.push(json!({"u": scn.names.key(&k), "d": abs_date(u["mdate"].as_i64().unwrap_or(0)), "en": u["enabled"].as_bool().unwrap_or(false)}));
+            }
+        }
+        r
+    };
+    if let Some(rooms) = v["sys.Room"].as_array() {
+        for r in rooms {
+            let id = match r["id"].as_str().and_then(|s| vh::security::uid_decode(s).ok()) {
+                Some(i) => i,
+                None => continue,
+            };
+            let name = match scn.names.room_names.get(&id) {
+                Some(n) => n.clone(),
+                None => continue,
+            };
+            let mut groups = Vec::new();
+            if let Some(auths) = r["authorisations"].as_array() {
+                for a in auths {
+                    let mut rights = Vec::new();
+                    if let Some(rs) = a["rights"].as_array() {
+                        for x in rs {
+                            rights.push(json!({"ent": x["entity"].as_str().unwrap_or("").strip_prefix("v.").unwrap_or(x["entity"].as_str().unwrap_or("")),
+                                "d": abs_date(x["mdate"].as_i64().unwrap_or(0)), "self": x["mutate_self"].as_bool().unwrap_or(false), "all": x["mutate_all"].as_bool().unwrap_or(false)}));
+                        }
+                    }
+                    groups.push(json!({"g": a["name"].as_str().unwrap_or(""), "rights": rights, "users": users(&a["users"]), "uadmins": users(&a["user_admin"])}));
+                }
+            }
+            out.insert(name, json!({"admins": users(&r["admin"]), "groups": groups}));
+        }
+    }
+    Value::Object(out)
+}
+
 pub async fn project_all(world: &World, scn: &mut Scn) -> Value {
     let mut m = Map::new();
     for p in scn.peers.clone() {
@@ -302,6 +365,11 @@ pub async fn run_step(world: &mut World, scn: &mut Scn, step: &Value, out: &mut 
     ev["ev"] = json!(op);
     ev.as_object_mut().unwrap().remove("op");
     let mut res: Result<(), String> = Ok(());
+    if op == "tick" {
+        // moving the clock is not an observable step
+        set_clock(i(step, "d"), i(step, "k"));
+        return;
+    }
     match op.as_str() {
         "tick" => set_clock(i(step, "d"), i(step, "k")),
         "room" => {
@@ -320,6 +388,121 @@ pub async fn run_step(world: &mut World, scn: &mut Scn, step: &Value, out: &mut 
             match create_open_room(p, &users).await {
                 Ok(id) => scn.names.add_room(&s(step, "room"), id),
                 Err(e) => res = Err(e),
+            }
+        }
+        "roomdef" => {
+            let p = &world.peers[&s(step, "p")];
+            let mut pr = discret::Parameters::default();
+            use discret::ParametersAdd;
+            let mut n = 0;
+            let mut keyparam = |u: &str, pr: &mut discret::Parameters| -> String {
+                n += 1;
+                let k = scn.user_key.get(u).cloned().unwrap_or_default();
+                pr.add(&format!("k{n}"), vh::security::base64_encode(&k)).unwrap();
+                format!("$k{n}")
+            };
+            let mut q = String::from("mutate { sys.Room { admin: [");
+            for a in arr(step, "admins") {
+                let kp = keyparam(a.as_str().unwrap(), &mut pr);
+                q.push_str(&format!("{{verif_key:{kp}}},"));
+            }
+            if q.ends_with(',') {
+                q.pop();
+            }
+            q.push_str("] authorisations:[");
+            for (gi, g) in arr(step, "groups").iter().enumerate() {
+                if gi > 0 {
+                    q.push(',');
+                }
+                q.push_str(&format!("{{ name:\"{}\" ", s(g, "g")));
+                if !arr(g, "rights").is_empty() {
+                    q.push_str("rights:[");
+                    for r in arr(g, "rights") {
+                        let e = s(r, "ent");
+                        let ent = if e == "*" { e } else { format!("v.{e}") };
+                        q.push_str(&format!("{{entity:\"{}\" mutate_self:{} mutate_all:{}}},", ent, r["self"].as_bool().unwrap(), r["all"].as_bool().unwrap()));
+                    }
+                    q.pop();
+                    q.push_str("] ");
+                }
+                if !arr(g, "users").is_empty() {
+                    q.push_str("users:[");
+                    for u in arr(g, "users") {
+                        let kp = keyparam(u.as_str().unwrap(), &mut pr);
+                        q.push_str(&format!("{{verif_key:{kp}}},"));
+                    }
+                    q.pop();
+                    q.push_str("] ");
+                }
+                if !arr(g, "uadmins").is_empty() {
+                    q.push_str("user_admin:[");
+                    for u in arr(g, "uadmins") {
+                        let kp = keyparam(u.as_str().unwrap(), &mut pr);
+                        q.push_str(&format!("{{verif_key:{kp}}},"));
+                    }
+                    q.pop();
+                    q.push_str("] ");
+                }
+                q.push_str("} ");
+            }
+            q.push_str("] } }");
+            match p.db.mutate(&q, Some(pr)).await {
+                Ok(r) => match id_of_result(&r, "sys.Room") {
+                    Some(id) => {
+                        scn.names.add_room(&s(step, "room"), id);
+                        if let Ok(v) = serde_json::from_str::<Value>(&r) {
+                            if let Some(auths) = v["sys.Room"]["authorisations"].as_array() {
+                                for (i, a) in auths.iter().enumerate() {
+                                    if let Some(aid) = a["id"].as_str().and_then(|x| vh::security::uid_decode(x).ok()) {
+                                        let gname = s(&arr(step, "groups")[i], "g");
+                                        scn.auth_ids.insert((s(step, "room"), gname), aid);
+                                    }
+                                }
+                            }
+                        }
+                    }
+                    None => res = Err(format!("no id in {r}")),
+                },
+                Err(e) => res = Err(e.to_string()),
+            }
+        }
+        "roomupd" => {
+            let p = &world.peers[&s(step, "p")];
+            use discret::ParametersAdd;
+            let room = scn.names.rooms.get(&s(step, "room")).cloned();
+            let what = s(step, "what");
+            match room {
+                None => res = Err("unknown room".to_string()),
+                Some(room) => {
+                    let mut pr = discret::Parameters::default();
+                    pr.add("room", uid_encode(&room)).unwrap();
+                    let entry = if what == "right" {
+                        let e = s(step, "ent");
+                        let ent = if e == "*" { e } else { format!("v.{e}") };
+                        format!("rights:[{{entity:\"{}\" mutate_self:{} mutate_all:{}}}]", ent, step["self"].as_bool().unwrap(), step["all"].as_bool().unwrap())
+                    } else {
+                        let k = scn.user_key.get(&s(step, "user")).cloned().unwrap_or_default();
+                        pr.add("k", vh::security::base64_encode(&k)).unwrap();
+                        let field = match what.as_str() { "user" => "users", "uadmin" => "user_admin", _ => "admin" };
+                        format!("{field}:[{{verif_key:$k enabled:{}}}]", step["enabled"].as_bool().unwrap_or(true))
+                    };
+                    let q = if what == "admin" {
+                        format!("mutate {{ sys.Room {{ id:$room {entry} }} }}")
+                    } else {
+                        match scn.auth_ids.get(&(s(step, "room"), s(step, "g"))) {
+                            Some(aid) => {
+                                pr.add("auth", uid_encode(aid)).unwrap();
+                                format!("mutate {{ sys.Room {{ id:$room authorisations:[{{ id:$auth {entry} }}] }} }}")
+                            }
+                            None => String::new(),
+                        }
+                    };
+                    if q.is_empty() {
+                        res = Err("unknown group".to_string());
+                    } else if let Err(e) = p.db.mutate(&q, Some(pr)).await {
+                        res = Err(e.to_string());
+                    }
+                }
             }
         }
         "put" => {
@@ -453,11 +636,16 @@ pub async fn run_step(world: &mut World, scn: &mut Scn, step: &Value, out: &mut 
                 Some(room) => {
                     let abort = step.get("abort").and_then(|a| a.as_u64()).map(|a| a as usize);
                     let own = step.get("norecompute").and_then(|a| a.as_bool()).unwrap_or(false);
+                    let dbg = std::env::var("DV_DEBUG").is_ok();
                     if !own {
+                        if dbg { eprintln!("pull: recompute q"); }
                         world.peers[&q].recompute().await;
+                        if dbg { eprintln!("pull: recompute p"); }
                         world.peers[&p].recompute().await;
                     }
+                    if dbg { eprintln!("pull: sync"); }
                     let (r, stats) = pull(&world.peers[&p], &world.peers[&q], room, abort).await;
+                    if dbg { eprintln!("pull: done {:?} queries={}", r, stats.queries); }
                     if !own {
                         world.peers[&p].recompute().await;
                     }
@@ -547,32 +735,50 @@ pub async fn run_step(world: &mut World, scn: &mut Scn, step: &Value, out: &mut 
             ev["msg"] = json!(e.chars().take(120).collect::<String>());
         }
     }
+    let dbg = std::env::var("DV_DEBUG").is_ok();
     if op != "tick" {
         for p in scn.peers.clone() {
+            if dbg { eprintln!("barrier {p}"); }
             world.peers[&p].write_barrier().await;
         }
     }
+    if dbg { eprintln!("project"); }
     if scn.events {
         ev["events"] = drain_events(world, scn).await;
     }
     ev["st"] = project_all(world, scn).await;
+    if dbg { eprintln!("defs"); }
+    if scn.defs {
+        // definitions can only change through room mutations and pulls
+        if scn.defs_cache.is_none() || matches!(op.as_str(), "roomdef" | "roomupd" | "pull" | "quiesce" | "room") {
+            let mut m = Map::new();
+            for p in scn.peers.clone() {
+                m.insert(p.clone(), project_defs(world, scn, &p).await);
+            }
+            scn.defs_cache = Some(Value::Object(m));
+        }
+        ev["defs"] = scn.defs_cache.clone().unwrap();
+        ev["now"] = json!(abs_date(discret::verif_hooks::date_utils::now()));
+    }
     out.emit(ev);
 }
 
 pub async fn run_scenario(world: &mut World, sc: &Value, out: &mut TraceWriter) {
     let peers: Vec<String> = arr(sc, "peers").iter().map(|x| x.as_str().unwrap().to_string()).collect();
-    let mut scn = Scn { names: Names::default(), hash_ids: HashMap::new(), terms: HashMap::new(), peers: peers.clone(), events: sc.get("events").and_then(|e| e.as_bool()).unwrap_or(false) };
+    let mut scn = Scn { names: Names::default(), hash_ids: HashMap::new(), terms: HashMap::new(), peers: peers.clone(), events: sc.get("events").and_then(|e| e.as_bool()).unwrap_or(false),
+        defs: sc.get("defs").and_then(|e| e.as_bool()).unwrap_or(false), auth_ids: HashMap::new(), user_key: HashMap::new(), defs_cache: None };
     for p in &peers {
         let user = sc["users"][p].as_str().unwrap_or("u1").to_string();
         world.ensure_peer(p, &user).await;
         let k = world.peers[p].vkey.clone();
+        scn.user_key.insert(user.clone(), k.clone());
         scn.names.keys.insert(k, user);
     }
     set_clock(0, 1);
     if scn.events {
         let _ = drain_events(world, &scn).await; // forget what earlier scenarios left in the subscribers
     }
-    out.emit(json!({"ev":"begin","sid":sc["sid"],"peers":peers}));
+    out.emit(json!({"ev":"begin","sid":sc["sid"],"peers":peers,"users":sc["users"]}));
     for step in arr(sc, "steps") {
         run_step(world, &mut scn, step, out).await;
     }
@@ -595,7 +801,8 @@ pub fn main(args: &[String]) -> i32 {
         }
     });
     out.flush();
-    cleanup_run_dir();
     println!("{{\"scenarios\":{},\"events\":{}}}", scenarios.len(), out.events);
-    0
+    cleanup_run_dir();
+    // leave without tearing the services down (their threads still hold connections)
+    std::process::exit(0);
 }
